@@ -197,3 +197,28 @@ Check (C12_update_undo :
   fadd (SO E) sk (sig_e E s) <> f0 (SO E) ->
   sig_A E sa = sig_A E s /\ sig_e E sa = sig_e E s).
 Print Assumptions C12_update_undo.
+
+(* histories never get stuck: a history of in-range updates returns a signature -- unless at some step the signer's own B for the
+   vector reached there is the identity (the negligible event on which signing that vector fails as well); never a panic (C08) *)
+Theorem C12_update_history_total :
+  forall (E : env) (LW : Laws E) sk header ups s msgs,
+  suite_ok E ->
+  verify E s (sk_to_pk E sk) (Some msgs) header = Ok tt ->
+  Forall (fun u : N * bytes => (fst u < len msgs)%N) ups ->
+  (len msgs < usize_max - 1)%N -> fadd (SO E) sk (sig_e E s) <> f0 (SO E) ->
+  (exists s' msgs', run_updates E s sk msgs ups = Ok (s', msgs')) \/
+  (run_updates E s sk msgs ups = Err /\
+   exists k, (k < length ups)%nat /\
+     forall e' B, sign_eB E (Some (apply_updates msgs (firstn (S k) ups))) sk (sk_to_pk E sk) header = Ok (e', B) -> B = g1_zero (PR E)).
+Proof. exact update_history_total. Qed.
+Check (C12_update_history_total :
+  forall (E : env) (LW : Laws E) sk header ups s msgs,
+  suite_ok E ->
+  verify E s (sk_to_pk E sk) (Some msgs) header = Ok tt ->
+  Forall (fun u : N * bytes => (fst u < len msgs)%N) ups ->
+  (len msgs < usize_max - 1)%N -> fadd (SO E) sk (sig_e E s) <> f0 (SO E) ->
+  (exists s' msgs', run_updates E s sk msgs ups = Ok (s', msgs')) \/
+  (run_updates E s sk msgs ups = Err /\
+   exists k, (k < length ups)%nat /\
+     forall e' B, sign_eB E (Some (apply_updates msgs (firstn (S k) ups))) sk (sk_to_pk E sk) header = Ok (e', B) -> B = g1_zero (PR E))).
+Print Assumptions C12_update_history_total.
